@@ -35,6 +35,9 @@ MAY_PANIC = [
     (r"(const_ptr|mut_ptr)::offset_from(_unsigned)?$|::sub_ptr$", "offset_from"),
     (r"num::div_ceil$|num::next_multiple_of$|ops::Div::div$|ops::Rem::rem$|num::(div|rem)_euclid$|num::ilog\w*$|num::pow$|num::abs$", "arith_call"),
     (r"Vec::(reserve|reserve_exact|remove|insert|swap_remove|split_off|drain)$", "vec_op"),
+    # `a + b` on a GENERIC numeric type is a call in MIR (no Assert terminator): for the integer instantiations it is the same
+    # overflow-checked operation
+    (r"ops::(arith::|bit::)?(Add|Sub|Mul|Shl|Shr)::(add|sub|mul|shl|shr)$", "arith_generic"),
     (r"Address::unchecked_(add|sub|offset_from|align_up)$", "unchecked_addr"),
     (r"slice::(windows|chunks|chunks_exact|chunks_mut|rchunks)$|iter::Iterator::step_by$", "iter_ctor"),
     (r"Layout::(from_size_align_unchecked|array)$|alloc::alloc(_zeroed)?$", "alloc"),
@@ -174,6 +177,8 @@ def _edges_of_all(prog, b):
                 continue
             for rx, kind in MAY_PANIC:
                 if rx.search(cn):
+                    if kind == "arith_generic" and t.get("resolved"):
+                        break       # an operator impl of a concrete type: a local function with its own body, or std's
                     args = [b.term(a, pos) for a in t["args"]]
                     yield {"kind": kind, "sig": f"{'::'.join(cn.split('::')[-2:])}({','.join(sig(a) for a in args)})", "pos": pos, "ln": ln, "ops": args, "mac": mac, "callee": cn,
                            "resig": (lambda o, cn=cn: f"{'::'.join(cn.split('::')[-2:])}({','.join(sig(a) for a in o)})")}
@@ -270,6 +275,20 @@ def _auto(b, e):
             why = fs.cannot_fail(e["ops"][0], _F(b, e))
             if why:
                 return "unwrap of a call that cannot fail here: " + why
+        return None
+    if k == "arith_generic" and len(e["ops"]) == 2:
+        op = e.get("callee", "").split("::")[-1]
+        a, c = e["ops"]
+        B = Bounds(_F(b, e))
+        if op == "sub" and B.le(c, a):
+            return "generic `-`: subtrahend <= minuend by interval / ordering closure"
+        if op == "add":
+            return B.add_fits(a, c)
+        if op == "mul":
+            return B.mul_fits(a, c)
+        if op in ("shl", "shr"):
+            u = B.ub(c)
+            return f"generic shift by at most {u} < 8" if u is not None and u < 8 else None
         return None
     if k == "Overflow:Add":
         a, c = e["ops"]
